@@ -511,8 +511,11 @@ def rule_frames(rep, idx):
         where = 'xcmp.hpp xcmp::CodeBuffer::StmtCodeGen::visitPost(AssStatement&)'
         try:
             M.X.visit_post(vis, st)
-        except (NeedSplit, Thrown) as e:
-            rep.add('R5', key, False, where, 'code generation fails / not uniform: %s' % e)
+        except Thrown as e:
+            rep.add('R5', key, False, where, 'code generation fails: %s' % e.what)
+            continue
+        except NeedSplit as e:
+            rep.undecided('R5', key, 'not uniform: %s' % e, where)
             continue
         d = frame_delta(M)
         rep.add('R5', key, d is not None and not d[0] and d[1] == 0, where,
